@@ -4,7 +4,7 @@
 From XcpModel Require Import Base Extents Sparse Blocks CopyLoop FileCopy.
 From XcpProofs Require Import ExtentsProofs SparseProofs BlocksProofs CopyLoopProofs FileCopyProofs.
 From XcpModel Require Import Extracted.
-From XcpProofs Require Import ExtractedOk.
+From XcpProofs Require Import XExtents XLoops.
 From Coq Require Import Permutation.
 
 (* parfile, sparse source: exactly the data segments are written — no byte of a
@@ -95,3 +95,14 @@ Print Assumptions C11_overwrite_starts_empty.
 Print Assumptions C11_probably_sparse_spec.
 Print Assumptions C11_src_probably_sparse.
 Print Assumptions C11_src_copy_sparse_loop.
+
+(* ---- further glue on this property's path, pinned token for token (an edit re-opens the obligation; the run then
+   looks for a failing input) ---- *)
+From XcpPins Require Import Pin_parblock_dispatch_worker Pin_common_allocate_file.
+From XcpProofs Require Import PinnedSource.
+Theorem C11_src_pin_parblock_dispatch_worker : pin_unchanged name_parblock_dispatch_worker.
+Proof. exact pin_parblock_dispatch_worker. Qed.
+Theorem C11_src_pin_common_allocate_file : pin_unchanged name_common_allocate_file.
+Proof. exact pin_common_allocate_file. Qed.
+Print Assumptions C11_src_pin_parblock_dispatch_worker.
+Print Assumptions C11_src_pin_common_allocate_file.
